@@ -72,7 +72,7 @@ def form_app(buf, max_body=None):
     return app
 
 
-def post(buf, body, ctype, what='forms+files', chunked=False, rng=None, max_body=None, time_limit=10.0, cut_wire=None, in_thread=False):
+def post(buf, body, ctype, what='forms+files', chunked=False, rng=None, max_body=None, time_limit=10.0, cut_wire=None, in_thread=False, raw_wire=None):
     app = form_app(buf, max_body)
     env = base_environ(REQUEST_METHOD='POST', PATH_INFO='/f/' + what, CONTENT_TYPE=ctype)
     wire = body
@@ -83,6 +83,10 @@ def post(buf, body, ctype, what='forms+files', chunked=False, rng=None, max_body
             wire = wire[:int(len(wire) * cut_wire)]
     else:
         env['CONTENT_LENGTH'] = str(len(body))
+    if raw_wire is not None:        # the bytes on the wire as given (chunked framing written by the caller)
+        wire = raw_wire
+        env.pop('CONTENT_LENGTH', None)
+        env['HTTP_TRANSFER_ENCODING'] = 'chunked'
     stream = env['wsgi.input'] = Stream(wire, rng=rng if (rng is not None and rng.random() < 0.5) else None)
     t0 = time.time()
     escaped = False
